@@ -354,7 +354,9 @@ func apiSpecs() []*HarnessSpec {
 		swQ, swT := append(step(100, 150, 1), aligned...), append(step(100, 150, 1), aligned...)
 		lqS := []int{0}
 		if len(p.lqQ) > 1 {
-			swQ = append(step(100, 150, 5), aligned...)
+			// (with a symbolic first query byte the wide one-level fans 331-333 fork into hundreds of
+			// branches of minutes each: they are used with concrete queries only, see allkeys)
+			swQ = append(step(100, 150, 5), aligned[:len(aligned)-3]...)
 			lqS = []int{1}
 		}
 		q3 := []Grid{l3Grid(p.check, skQ, p.small[:2], enc3, []int{0, 2}, lq3Q), l3Grid(p.check, swQ, p.small[:2], enc3, []int{0, 3}, lqS)}
